@@ -7,8 +7,11 @@
     [sane cfg now]: 0 <= window < 2^63-1 ns, the wall clock is later than 1970
     plus the window and inside the int64 nanosecond range. *)
 From Coq Require Import List NArith ZArith.
-From MM Require Import Model.SleepCmd Proofs.SleepCmdProofs.
+From MM Require Import Model.SleepCmd Proofs.SleepCmdProofs Generated.C28.
 Import ListNotations.
+From Coq Require String.
+Delimit Scope string_scope with string.
+Import String.StringSyntax.
 Local Open Scope Z_scope.
 
 (** With a signing key configured: every effect of every frame of every type
@@ -82,3 +85,38 @@ Theorem C28_nonvacuous :
   = (mkastate Sleeping [mkentry 10 1 now 1], [EForward KSleep 3%N good_cmd; ECallback KSleep; EState Awake Sleeping], now + 100000000).
 Proof. exact good_command_acts. Qed.
 Print Assumptions C28_nonvacuous.
+
+(** Source facts regenerated on this run.  Every sleepMgr.Sleep / Wake call in
+    a method reachable from Agent.processFrame is guarded by the verdict of the
+    flooder's handler of the same kind (the model's [on_cmd]); the two flooded
+    handlers are among them; handleQueuedState hands its commands to those
+    handlers (the model's [on_frame] for [FQueued]); processFrame dispatches
+    the three frame types to the three handlers; inside the flooder the
+    verification precedes the marking and the forwarding and a failed
+    verification returns false; both verify functions consist of exactly the
+    model's checks (no key: accept; zero signature; timestamp with the
+    overflow guard; Ed25519 over SignableBytes under the configured key) with
+    the age computed as the model does; SignableBytes is origin, id,
+    timestamp; the default window is the model's. *)
+Definition site_guarded (s : String.string * String.string * bool) : bool := snd s.
+Definition site_fn (s : String.string * String.string * bool) : String.string := fst (fst s).
+
+Theorem C28_source_facts :
+  forallb site_guarded gen_c28_frame_path_sites = true /\
+  existsb (fun s => String.eqb (site_fn s) "handleSleepCommand"%string) gen_c28_frame_path_sites = true /\
+  existsb (fun s => String.eqb (site_fn s) "handleWakeCommand"%string) gen_c28_frame_path_sites = true /\
+  gen_c28_queued_dispatch = ["handleSleepCommand"; "handleWakeCommand"]%string /\
+  gen_c28_dispatch_ok = true /\
+  gen_c28_sleep_verify_then_mark_then_forward = true /\ gen_c28_wake_verify_then_mark_then_forward = true /\
+  gen_c28_sleep_reject_returns_false = true /\ gen_c28_wake_reject_returns_false = true /\
+  gen_c28_sleep_verify_checks = ["no-key-accept"; "zero-signature-reject"; "timestamp-reject"; "signature-reject"]%string /\
+  gen_c28_wake_verify_checks = gen_c28_sleep_verify_checks /\
+  gen_c28_sleep_ts_overflow_guard = true /\ gen_c28_wake_ts_overflow_guard = true /\
+  gen_c28_sleep_verify_args_ok = true /\ gen_c28_wake_verify_args_ok = true /\
+  gen_c28_sleep_age_computation_ok = true /\ gen_c28_wake_age_computation_ok = true /\
+  gen_c28_sleep_signed_fields = ["OriginAgent:writeBytes"; "CommandID:writeUint64"; "Timestamp:writeUint64"]%string /\
+  gen_c28_wake_signed_fields = gen_c28_sleep_signed_fields /\
+  gen_c28_default_window_ns = f_window (default_cfg true) /\
+  gen_c28_zero_window_fallback_ns = f_window (default_cfg true).
+Proof. repeat split; reflexivity. Qed.
+Print Assumptions C28_source_facts.
